@@ -35,9 +35,16 @@
      nil                           not in [safe] (nil is "absent": both routes report "required")
    Strings INSIDE lists and maps may be number-like, bool-like, quoted or bracketed: they travel
    JSON-quoted and survive.  Outside [safe] the statement is false of the faithful model of the
-   unchanged code: one refuted theorem per known-finding class KF-C17a..i. *)
+   unchanged code: one refuted theorem per known-finding class KF-C17a..i.
+
+   "The configured value" is the value at the time of the binding (c17_repopulate_*, c17_rebind_after_set, over
+   Model/Rebind.v and the configuration store of Model/ConfigStore.v): the configuration points of one component
+   definition may be populated more than once - a lazily created component whose creation failed after the
+   placeholder pass is created again on the next request - with Configure.Set in between; every pass binds from the
+   configuration as it is then, on all three routes alike. *)
 From Coq Require Import List NArith ZArith Bool.
 From IocVerif Require Import Model.Values Proofs.StrconvProofs Proofs.ValuesProofs.
+From IocVerif Require Import Model.ConfigStore Model.Rebind Proofs.ConfigStoreProofs Proofs.RebindProofs.
 Import ListNotations.
 
 (* ---- prefix:"a.b" ---------------------------------------------------------------------------------------- *)
@@ -266,4 +273,77 @@ Theorem c17_placeholder_in_value_refuted : forall fx, exists cfg key T,
 Proof.
   intros fx. exists (cfg_of [([107]%N, VStr [36;123;110;111;107;101;121;58;55;125;120]%N)]), [107]%N, TString.
   split; [reflexivity|destruct fx; differ].
+Qed.
+
+(* ---- population passes over time: binding has no memory ----------------------------------------------------------- *)
+
+(* In every history of Configure.Set calls and population passes on one configuration store, the pass that follows
+   a history [before] binds every point - prefix, value placeholder, prop shorthand, in any mix - from the store as
+   the Sets of [before] left it: what it yields is what the same pass yields when [before] had contained no pass at
+   all.  Earlier passes over the same points (the first, failed creation of a lazy component) or over others leave no
+   trace; in particular nothing resolved, formatted or bound the first time is used again. *)
+Theorem c17_repopulate_no_memory : forall fx s before ps,
+  prun fx s (before ++ [PPopulate ps]) = prun fx s before ++ [populate fx (pstate s (psets_only before)) ps]
+  /\ populate fx (pstate s (psets_only before)) ps = map (bind_point fx (vget (pstate s before))) ps.
+Proof.
+  intros fx s before ps. split; [apply prun_pass_after|]. rewrite pstate_sets_only. reflexivity.
+Qed.
+
+(* the retry shape: populate, correct the configuration, populate the SAME points again - the second pass is the
+   pass of a component that is populated for the first time after the Sets *)
+Corollary c17_repopulate_retry : forall fx s ps sets,
+  psets_only sets = sets ->
+  last (prun fx s (PPopulate ps :: sets ++ [PPopulate ps])) [] = populate fx (pstate s sets) ps
+  /\ last (prun fx s (sets ++ [PPopulate ps])) [] = populate fx (pstate s sets) ps.
+Proof.
+  intros fx s ps sets Hs. split.
+  - change (PPopulate ps :: sets ++ [PPopulate ps]) with ((PPopulate ps :: sets) ++ [PPopulate ps]).
+    rewrite last_pass. cbn [psets_only filter]. fold (psets_only sets). rewrite Hs. reflexivity.
+  - rewrite last_pass, Hs. reflexivity.
+Qed.
+
+(* A bind after a Set sees the Set: once Configure.Set(k, v) has run, the point prefix:"k" (k in any letter case) binds
+   the value that was set converted to the field's type, and - on the agreement domain [safe] - so do value:"${k}" and
+   prop:"k", whatever the store held before and whatever was bound from it (the store s is arbitrary). *)
+Theorem c17_rebind_after_set : forall fx s k v T,
+  lower_keys v <> VNull ->
+  (forall k' req, lower k = lower k' ->
+     bind_point fx (vget (vset s k v)) (mkCPoint RtPrefix req k' T) = Some (bind_prefix_r req (lower_keys v) T))
+  /\ (forall text, key_ok k = true -> safe fx (lower_keys v) T = true -> format_cfg fx (lower_keys v) = Ok text ->
+       inert text = true ->
+       bind_point fx (vget (vset s k v)) (mkCPoint RtValue true (ph k) T) = Some (bind_prefix (lower_keys v) T)
+       /\ (simple_key k = true ->
+           bind_point fx (vget (vset s k v)) (mkCPoint RtProp true k T) = Some (bind_prefix (lower_keys v) T))).
+Proof.
+  intros fx s k v T Hv. split.
+  - intros k' req Hk. apply bind_prefix_after_set; assumption.
+  - intros text Hk Hs Hf Hi. split.
+    + apply (bind_value_after_set fx s k v T text); assumption.
+    + intros Hsk. apply (bind_prop_after_set fx s k v T text); assumption.
+Qed.
+
+(* svc.port: 80 in the loaded document; the lazy client is populated (and fails in Init), App.Set("svc.port", 8080),
+   the client is populated again: 8080 on all three routes *)
+Definition ex_port_key : bytes := [115;118;99;46;112;111;114;116]%N.
+Definition ex_port_store : vstore := mkStore [] [([115;118;99]%N, VMap [([112;111;114;116]%N, VInt 80)])].
+Definition ex_port_points : list cpoint :=
+  [mkCPoint RtPrefix true ex_port_key (TInt 64); mkCPoint RtValue true (ph ex_port_key) (TInt 64);
+   mkCPoint RtProp true ex_port_key (TInt 64)].
+
+Example c17_repopulate_no_memory_ex : forall fx,
+  prun fx ex_port_store [PPopulate ex_port_points; PSet ex_port_key (VInt 8080); PPopulate ex_port_points] =
+  [[Some (Ok (FInt 80)); Some (Ok (FInt 80)); Some (Ok (FInt 80))];
+   [Some (Ok (FInt 8080)); Some (Ok (FInt 8080)); Some (Ok (FInt 8080))]].
+Proof. intros fx. destruct fx; vm_compute; reflexivity. Qed.
+
+Example c17_repopulate_retry_ex : psets_only [PSet ex_port_key (VInt 8080)] = [PSet ex_port_key (VInt 8080)].
+Proof. reflexivity. Qed.
+
+Example c17_rebind_after_set_ex :
+  lower_keys (VInt 8080) <> VNull /\ key_ok ex_port_key = true /\ simple_key ex_port_key = true
+  /\ safe false (lower_keys (VInt 8080)) (TInt 64) = true
+  /\ (exists text, format_cfg false (lower_keys (VInt 8080)) = Ok text /\ inert text = true).
+Proof.
+  split; [discriminate|]. split; [vm_compute; reflexivity|]. split; [vm_compute; reflexivity|].
+  split; [vm_compute; reflexivity|]. eexists. split; vm_compute; reflexivity.
 Qed.
